@@ -980,7 +980,7 @@ class Interp:
             self.oblige(st, "split", "split_at(%s) of a slice of length %s" % (k, L0), ctx.ge0(k) and ctx.le(k, L0), t.get("sp"))
             self.store(st, t["dest"], ('tuple', [('slice', k), ('slice', L0 - k)]))
             return None
-        if (name in self.inline and args and args[0] == ('self',)) or (name and self.facts.is_new_helper(name)):
+        if (name in self.inline and args) or (name and self.facts.is_new_helper(name)):
             # a callee the rule asked to look into, or a helper introduced by a later edit (not on the pinned tree)
             cb = self.facts.body(name, required=False)
             if cb is not None and cb.argc == len(args):
